@@ -40,6 +40,7 @@ type Engine struct {
 	mu         sync.Mutex
 	unresolved map[string]int
 	fieldMaps  []string
+	knownFailing map[string]bool // "<function>/post:<tag>" of clauses listed as known findings
 	safeOn     bool
 	loadErrs   []string
 }
